@@ -63,6 +63,26 @@ Example checker_accepts_x_model :
     [(xs_sub_revert, true); (pay_blocked_then_precompile, false); (pay_blocked_then_precompile, true); (xs_mixed, true)] = true.
 Proof. vm_compute. reflexivity. Qed.
 
+(** Wasm.execute(RW = 19, …) called by Z: 40 unibi of funds, RW dispatches bank sends of 7 to B and 30 back to Z; the same
+    with a dispatched MsgConvertCoinToEvm (refused inside a running EVM tx): the call fails as a whole, the bank send
+    that follows in the same tx is mirrored as usual *)
+Definition bx1 : bank := bank_of [1000000000000; 7; 0; 50; 0; 0; 100; 0; 0; 0; 0; 0; 0; 0; 0; 0; 1000; 10000000; 0; 5000] 5000000000000.
+Definition wasm_ok : list xop := [XPre [(17%nat, 19%nat, 40); (19%nat, 4%nat, 7); (19%nat, 17%nat, 30)] false].
+Definition wasm_refused_then_send : list xop :=
+  [XOp (OTransfer 17 4 5000000000000); XPre [(17%nat, 19%nat, 40); (19%nat, 4%nat, 7)] true; XPre [(17%nat, 2%nat, 3)] false].
+Definition xshown2 : list nat := [2; 4; 16; 17; 19]%nat.
+
+Example wasm_dispatch_nonvacuous :
+  (let r := deliver_x true cx0 ex0 bx1 (tz 100000) wasm_ok true in
+   (snd (fst r), map (bal (fst (fst r))) xshown2, supply (fst (fst r)))) = (Ok, [0; 7; 1000; 9999990; 5003], 5000000000000) /\
+  (let r := deliver_x true cx0 ex0 bx1 (tz 100000) wasm_refused_then_send true in
+   (snd (fst r), map (bal (fst (fst r))) xshown2, supply (fst (fst r)), snd r)) =
+     (Ok, [3; 5; 1000; 9999992; 5000], 5000000000000, [OTransfer 17 4 5000000000000; OTransfer 17 2 3000000000000]) /\
+  (* the refused call inside a frame that reverts, in a tx that reverts: only the fee *)
+  (let r := deliver_x true cx0 ex0 bx1 (tz 100000) [XFrame wasm_refused_then_send false] false in
+   (snd (fst r), map (bal (fst (fst r))) xshown2, supply (fst (fst r)))) = (VmErr, [0; 0; 1000; 10000000; 5000], 5000000000000).
+Proof. vm_compute. repeat split; reflexivity. Qed.
+
 (** Flushing BEFORE the PrecompileCalled entry is journaled refutes the property: the flush mints 1 NIBI to the EVM
     module account, the bank refuses to pass it on to x/distribution, the error leaves no journal entry, the frame (or
     the tx) reverts, the final commit writes the cache context: supply +1 NIBI, stranded at the EVM module account. *)
